@@ -356,3 +356,61 @@ def nested_condaux_program(rng):
     prog["ticks"] = ticks + 2
     prog["plan"] = {str(k): v for k, v in plan.items()}
     return prog
+
+
+def shared_condaux_program(rng):
+    """Targeted family: ONE original aux framer is the conditional aux of two sibling frames (never in the same outline):
+    it runs under the first, the framer moves to the sibling while it is still running (the main frame's exit forces it
+    out) or after it completed, and the sibling's condition must then be able to start it again."""
+    ticks = rng.randint(16, 26)
+    nkids = rng.choice([2, 2, 3])
+    runs = rng.randint(2, 7)
+    frames = [P.frame("f0", [P.rec("m0.f0.%s" % c, c) for c in REC_CTX])]
+    for i in range(1, nkids + 1):
+        name = "f%d" % i
+        nxt = "f%d" % (i % nkids + 1)
+        st = [P.rec("m0.%s.%s" % (name, c), c) for c in REC_CTX]
+        clauses = [P.go(nxt, [P.cmp(".c3", "==", i)]), {"v": "aux", "aux": "a0", "needs": [P.cmp(".c0", "==", 1)]}]
+        if rng.random() < 0.5:
+            clauses.reverse()
+        frames.append(P.frame(name, st + clauses, over="f0"))
+    if rng.random() < 0.5:          # a frame below each sibling so that something is suspended
+        for i in range(1, nkids + 1):
+            frames.append(P.frame("g%d" % i, [P.rec("m0.g%d.%s" % (i, c), c) for c in REC_CTX], over="f%d" % i))
+    ax = [P.frame("x0", [P.rec("a0.x0.%s" % c, c) for c in REC_CTX] + [P.go("x1", [P.cmp("recurred", ">=", runs)])]),
+          P.frame("x1", [{"v": "done", "who": ["me"], "ctx": None}] + [P.rec("a0.x1.%s" % c, c) for c in REC_CTX])]
+    # driver: condition on at t0; move to the next sibling at t1 (.c3 = index of the frame to leave); later again
+    plan = {}
+    t = rng.randint(1, 3)
+    plan.setdefault(t, []).append((".c0", 1))
+    cur = 1
+    for _ in range(rng.randint(1, 3)):
+        t += rng.randint(1, 6)
+        if t >= ticks - 3:
+            break
+        plan.setdefault(t, []).append((".c3", cur))
+        cur = cur % nkids + 1
+        if rng.random() < 0.3:
+            t += rng.randint(1, 3)
+            plan.setdefault(t, []).append((".c0", rng.choice([0, 1])))
+    dframes, prev = [], 0
+    keys = sorted(plan)
+    for i, tt in enumerate(keys):
+        st = []
+        if i > 0:
+            for sh, v in plan[keys[i - 1]]:
+                st.append({"v": "put", "data": {"value": v}, "dst": sh, "ctx": None})
+        st.append({"v": "repeat", "n": tt - prev})
+        dframes.append(P.frame("d%d" % i, st))
+        prev = tt
+    st = [{"v": "put", "data": {"value": v}, "dst": sh, "ctx": None} for sh, v in plan[keys[-1]]]
+    st.append({"v": "repeat", "n": max(1, ticks - prev)})
+    dframes.append(P.frame("dl", st))
+    dframes.append(P.frame("dfin", [{"v": "bid", "ctl": "stop", "who": ["all"], "ctx": None}]))
+    drv = P.framer("drv", dframes, sched="active", order="front")
+    inits = [[sh, {"value": 0}] for sh in CSHARES] + [[sh, {"value": 0}] for sh in NSHARES]
+    prog = P.program([P.house("h", [drv, P.framer("m0", frames, first="f1"), P.framer("a0", ax, sched="aux")], inits=inits)],
+                     period="0.125")
+    prog["ticks"] = ticks + 2
+    prog["plan"] = {str(k): v for k, v in plan.items()}
+    return prog
